@@ -32,7 +32,15 @@ Inductive case :=
 | CGetRoots (o : outcome (list (option bytes))) (obs : result (list bytes))
 | CConsistency (o : outcome (list bytes)) (obs : result (list bytes))
 | CProofByHash (o : outcome (Z * list bytes)) (obs : result (Z * list bytes))
-| CEntryAndProof (o : outcome (bytes * bytes * list bytes)) (obs : result (bytes * bytes * list bytes)).
+| CEntryAndProof (o : outcome (bytes * bytes * list bytes)) (obs : result (bytes * bytes * list bytes))
+(* the temporal client with several shards: get-roots of every shard, [os] in the order in which
+   the shards answered (virtual time) *)
+| CTemporalRoots (os : list (outcome (list (option bytes)))) (obs : result (list bytes))
+(* ... and a submission: the shards (interval, configuration), NotAfter of the chain head (ns; read
+   with crypto/x509), the shard that received the requests (None: no request was made) *)
+| CAddSharded (shards : list (interval * config)) (na : Z) (served : option N) (etype : N) (chain : list bytes)
+              (x509 : option bytes) (precert : option (bytes * bytes)) (heads : list (bytes * pclass))
+              (os : list (outcome sct_rsp)) (obs : result sct).
 
 Definition result_eqb {A} (eqb : A -> A -> bool) (a b : result A) : bool :=
   match a, b with
@@ -59,6 +67,23 @@ Definition run_add (cfg : config) (temporal : bool) etype chain x509 precert hea
          current (cfg_verifier cfg) chain etype os
   else add_chain unit (cfg_sig_ok cfg) (cfg_key_hash cfg) (fun _ => x509) (fun _ => precert)
          current (cfg_verifier cfg) chain etype os.
+(* the sharded client: a key is the index of its shard *)
+Definition no_config : config := {| c_key := false; c_kh := []; c_valid := [] |}.
+Definition cfg_at (shards : list (interval * config)) (k : nat) : config :=
+  match nth_error shards k with Some s => snd s | None => no_config end.
+Fixpoint indexed (i : nat) (shards : list (interval * config)) : list (interval * option nat) :=
+  match shards with
+  | [] => []
+  | (iv, c) :: rest => (iv, if c_key c then Some i else None) :: indexed (S i) rest
+  end.
+Definition run_add_sharded (shards : list (interval * config)) (na : Z) etype chain x509 precert heads os :=
+  temporal_add_chain_sharded nat (fun k => cfg_sig_ok (cfg_at shards k) tt) (fun k => c_kh (cfg_at shards k))
+    (fun _ => x509) (fun _ => precert) (assoc_class heads) (fun _ => na) current (indexed 0 shards) chain etype os.
+
+(* the union of the shards' roots is compared as a set (both sides list every certificate once) *)
+Definition same_set (a b : list bytes) : bool :=
+  (length a =? length b)%nat && forallb (fun x => existsb (bytes_eqb x) b) a && forallb (fun x => existsb (bytes_eqb x) a) b.
+
 Definition run_entries start end_ o certs tbss :=
   get_entries (assoc_class certs) (assoc_class tbss) current start end_ o.
 
@@ -72,6 +97,10 @@ Definition check (c : case) : bool :=
   | CConsistency o obs => result_eqb lb_eqb (pass_through o) obs
   | CProofByHash o obs => result_eqb (pair_eqb Z.eqb lb_eqb) (pass_through o) obs
   | CEntryAndProof o obs => result_eqb (pair_eqb (pair_eqb bytes_eqb bytes_eqb) lb_eqb) (pass_through o) obs
+  | CTemporalRoots os obs => result_eqb same_set (temporal_get_roots os) obs
+  | CAddSharded shards na served et chain x p heads os obs =>
+      let '(i, r) := run_add_sharded shards na et chain x p heads os in
+      opt_eqb N.eqb (option_map N.of_nat i) served && result_eqb sct_eqb r obs
   end.
 
 (* what the model computes, reduced to the class (and status / body identity) for replay files *)
@@ -94,4 +123,6 @@ Definition explain (c : case) : string * Z * N :=
   | CConsistency o _ => klass (pass_through o)
   | CProofByHash o _ => klass (pass_through o)
   | CEntryAndProof o _ => klass (pass_through o)
+  | CTemporalRoots os _ => klass (temporal_get_roots os)
+  | CAddSharded shards na _ et chain x p heads os _ => klass (snd (run_add_sharded shards na et chain x p heads os))
   end.
